@@ -325,22 +325,26 @@ def flow_length_rule(model: Model, run: Run, folder: Folder) -> None:
     run.analysed(el)
     run.analysed(un)
     c = {k: folder.fold(mod.assigns[k], mod, None) for k in mod.assigns if k.startswith('FLOW_LENGTH_')}
-    ifs = [st for st in el.node.body if isinstance(st, ast.If) and isinstance(st.test, ast.Compare)]
-    compact = ifs[0] if ifs else None
-    ell = Loc(model, el)
+    # the writer is evaluated for lengths around the two boundaries (sa/evalfn.py): what it writes, not how it is spelt
+    from ..evalfn import eval_function
+
     cp = el.node.args.args[-1].arg
-    okc = compact is not None and isinstance(compact.test.ops[0], ast.Lt) and ell.expand(compact.test.left) == 'len(%s)' % cp and folder.fold(compact.test.comparators[0], mod, None) == 240 and ell.expand(compact.body[-1]) == 'return bytes([len(%s)]) + %s' % (cp, cp)
-    run.check(okc, el.qualname, 'compact form iff length < 240', el.loc(compact) if compact is not None else el.loc(), 'RFC 8955 4.1: one length byte below 240')
-    ext = ifs[1] if len(ifs) > 1 else None
-    okx = False
+    seen = {}
+    okc = okx = True
     top = None
-    if ext is not None:
-        op = ext.test.ops[0]
-        k = folder.fold(ext.test.comparators[0], mod, None)
-        top = k if isinstance(op, ast.LtE) else (k - 1 if isinstance(op, ast.Lt) and isinstance(k, int) else None)
-        okx = ell.expand(ext.test.left) == 'len(%s)' % cp and ell.expand(ext.body[-1]) == "return pack('!H', len(%s) | FLOW_LENGTH_EXTENDED_VALUE << 8) + %s" % (cp, cp) and c.get('FLOW_LENGTH_EXTENDED_VALUE') == 0xF0
-    run.check(okx, el.qualname, 'extended form = 0xF000 | length on two bytes', el.loc(ext) if ext is not None else el.loc(), 'RFC 8955 4.1: 0xFnnn')
-    run.check(top == 4095, el.qualname, 'largest encodable NLRI length is %s' % top, el.loc(ext) if ext is not None else el.loc(), 'RFC 8955 4.1: the two-byte form covers 240 to 4095 inclusive; a rule of exactly 4095 bytes must be encodable')
+    for n in (0, 1, 239, 240, 241, 4094, 4095, 4096):
+        v = eval_function(folder, el, {cp: bytes(n)})
+        seen[n] = v[:2].hex() if isinstance(v, bytes) else 'refused'
+        if n < 240:
+            okc = okc and isinstance(v, bytes) and v[:1] == bytes([n]) and len(v) == n + 1
+        elif isinstance(v, bytes):
+            okx = okx and v[:2] == (0xF000 | n).to_bytes(2, 'big') and len(v) == n + 2
+            top = n
+    okc = okc and isinstance(eval_function(folder, el, {cp: bytes(240)}), bytes) and eval_function(folder, el, {cp: bytes(240)})[:1] == b'\xf0' and len(eval_function(folder, el, {cp: bytes(240)})) == 242
+    compact = ext = None
+    run.check(okc, el.qualname, 'compact form iff length < 240', el.loc(), 'RFC 8955 4.1: one length byte below 240 (first bytes written for 0, 1, 239, 240, 241, 4094, 4095, 4096: %s); a length of 240 written on one byte is 0xF0, which the decoder takes for the start of a two-byte length' % seen)
+    run.check(okx and c.get('FLOW_LENGTH_EXTENDED_VALUE') == 0xF0, el.qualname, 'extended form = 0xF000 | length on two bytes', el.loc(), 'RFC 8955 4.1: 0xFnnn (%s)' % seen)
+    run.check(top == 4095, el.qualname, 'largest encodable NLRI length is %s' % top, el.loc(), 'RFC 8955 4.1: the two-byte form covers 240 to 4095 inclusive; a rule of exactly 4095 bytes must be encodable and 4096 refused')
     # decoder
     unl = Loc(model, un)
     dparam = un.node.args.args[3].arg if len(un.node.args.args) > 3 else '?'
